@@ -399,6 +399,11 @@ func (r *runner) runBatch(bi int, b batch) *batchOutcome {
 		args := []string{"child", "-prop", r.p.ID, "-phase", b.name, "-tier", string(r.tier),
 			"-seed", strconv.FormatInt(r.seed, 10), "-lo", strconv.Itoa(b.lo), "-hi", strconv.Itoa(b.hi),
 			"-skip", strings.Join(skip, ","), "-out", out, "-progress", prog, "-findings", r.findings}
+		if b.race {
+			// race-built children are several times slower, and a loaded machine
+			// slows them further: a generous bound, whose firing is re-checked alone
+			args = append(args, "-case-timeout", "180")
+		}
 		code, timedOut := runChild(bin, args, env, errf, time.Duration(timeout)*time.Second)
 		o.children++
 		if b.race {
@@ -484,7 +489,12 @@ func (r *runner) confirm(b batch, idx int, tag string) (bool, string) {
 		args := []string{"child", "-prop", r.p.ID, "-phase", b.name, "-tier", string(r.tier),
 			"-seed", strconv.FormatInt(r.seed, 10), "-lo", strconv.Itoa(idx), "-hi", strconv.Itoa(idx + 1),
 			"-out", out, "-findings", r.findings, "-case-timeout", "120"}
-		code, timedOut := runChild(bin, args, env, errf, 180*time.Second)
+		limit := 180 * time.Second
+		if b.race {
+			args[len(args)-1] = "300"
+			limit = 400 * time.Second
+		}
+		code, timedOut := runChild(bin, args, env, errf, limit)
 		eb, _ := os.ReadFile(errf)
 		if code != 0 || timedOut {
 			return true, string(eb)
